@@ -30,6 +30,7 @@ type vfC05Inst struct {
 	fold     map[string]map[string]bool // observer -> topic -> last announced value on the current stream
 	interest map[string]map[string]bool // what each observer currently announces on its live inbound stream
 	envFail  map[string]bool            // the environment refused the node's stream to this observer during this connection
+	outDead  map[string]int             // times the node's outbound stream to this observer was killed from the far end
 	polFail  map[string]bool            // the environment currently refuses streams to this observer
 }
 
@@ -73,6 +74,10 @@ func (in *vfC05Inst) trackInterest(ev string) {
 		in.polFail[f[1]] = false
 	case "conn":
 		in.envFail[f[1]] = in.polFail[f[1]]
+	case "outreset", "outclose":
+		if in.g.fakes[f[1]].outAlive() {
+			in.outDead[f[1]]++
+		}
 	}
 	if f[0] == "disc" {
 		in.envFail[f[1]] = false
@@ -171,6 +176,14 @@ func (in *vfC05Inst) quiesce(judge bool) string {
 		}
 		f := g.fakes[name]
 		if !f.outAlive() {
+			if in.outDead[name] > MaxBackoffAttempts {
+				// the library gives a peer up after MaxBackoffAttempts respawns of its outbound stream (the attempts
+				// are remembered for ten minutes): resets that persistent are not "transient"
+				if judge {
+					in.count("observer_given_up_after_max_respawn_attempts")
+				}
+				continue
+			}
 			if !in.envFail[name] && !snap.Blacklst[name] && judge {
 				in.count("connected_observer_without_outbound_stream")
 				in.bad("c05:no-outbound-stream", "observer %s is connected and the environment never refused a stream, but the node has no live outbound stream to it once quiet (queue present: %v)", name, snap.Queues[name])
@@ -225,7 +238,7 @@ func (in *vfC05Inst) Canon() string {
 	var sb strings.Builder
 	sb.WriteString(in.vfGWInst.Canon())
 	for _, name := range in.g.order {
-		fmt.Fprintf(&sb, "\nfold[%s]=%v gen=%d interest=%v envfail=%v/%v", name, vfFoldStr(in.fold[name]), in.seenOut[name], vfKeys(in.interest[name]), in.envFail[name], in.polFail[name])
+		fmt.Fprintf(&sb, "\nfold[%s]=%v gen=%d interest=%v envfail=%v/%v outdead=%d", name, vfFoldStr(in.fold[name]), in.seenOut[name], vfKeys(in.interest[name]), in.envFail[name], in.polFail[name], in.outDead[name])
 	}
 	return sb.String()
 }
@@ -274,7 +287,7 @@ func vfC05Scenarios(thorough bool) []*vfGWScenario {
 
 func vfC05Mk(x *vfExec, sc *vfGWScenario) vfInstance {
 	base := newVfGWInst(x, sc, nil)
-	in := &vfC05Inst{vfGWInst: base, seenOut: map[string]int{}, fold: map[string]map[string]bool{}, interest: map[string]map[string]bool{}, envFail: map[string]bool{}, polFail: map[string]bool{}}
+	in := &vfC05Inst{vfGWInst: base, seenOut: map[string]int{}, fold: map[string]map[string]bool{}, interest: map[string]map[string]bool{}, envFail: map[string]bool{}, polFail: map[string]bool{}, outDead: map[string]int{}}
 	for _, p := range sc.Cfg.Peers {
 		in.fold[p.Name] = map[string]bool{}
 		in.interest[p.Name] = map[string]bool{}
